@@ -28,6 +28,13 @@ static void on_call(void *_srpc, unsigned _supla_int_t rr_id,
   }
 }
 
+/* the read callback of the protocol layer, logged: how many bytes went into its input buffer */
+static _supla_int_t logged_read(void *b, _supla_int_t count, void *u) {
+  _supla_int_t r = supla_esp_data_read(b, count, u);
+  if (r > 0) sdk_out("READ %d", (int)r);
+  return r;
+}
+
 int main(void) {
   static unsigned char buf[70000];
   sdk_log_echo = 1;
@@ -35,7 +42,7 @@ int main(void) {
   /* as supla_esp_srpc_init(), with a logging handler */
   TsrpcParams p;
   srpc_params_init(&p);
-  p.data_read = &supla_esp_data_read;
+  p.data_read = &logged_read;
   p.data_write = &supla_esp_data_write;
   p.on_remote_call_received = &on_call;
   devconn->srpc = srpc_init(&p);
